@@ -426,7 +426,7 @@ fn violation(seed: u64, run: u64, source: &str, expr: &str, probe_seed: u64, bud
             .set("seed", Json::Int(seed as i128))
             .set("run", Json::Int(run as i128))
             .set("source", Json::s(source))
-            .set("history", Json::Arr(history.iter().map(|(e, b)| budget_json(Json::obj().set("expr", Json::s(e)), *b)).collect()))
+            .set("history", Json::Arr(history.iter().skip(history.len().saturating_sub(1500)).map(|(e, b)| budget_json(Json::obj().set("expr", Json::s(e)), *b)).collect()))
             .set("expr", Json::s(expr))
             .set("probe_seed", Json::Int(probe_seed as i128))
             .set("observed", Json::s(&f.observed))
@@ -502,7 +502,12 @@ fn work_item(tier: &str, seed: u64, idx: u64, exhaustive: &[String], n_random: u
             1 => Flavor::Dense,
             _ => Flavor::Grammar,
         };
-        let base = crongen::gen_expr(&mut rng, flavor);
+        // (all single edits of an expression with 90-item lists would be a hundred thousand
+        // kilobyte-long strings: mutation bases are ordinary crontab-sized lines)
+        let mut base = crongen::gen_expr(&mut rng, flavor);
+        while base.len() > 80 {
+            base = crongen::gen_expr(&mut rng, flavor);
+        }
         let mut v = vec![("mutation-base".to_string(), base.clone(), LIGHT)];
         for m in crongen::single_edit_mutants(&base) {
             v.push(("single-edit-mutant".into(), m, LIGHT));
